@@ -100,6 +100,18 @@ add("C12", "exploration",
     "Trusts the harness's reference merge (newest mtime wins, directories merged; tie cases skipped) and its matcher for the three generated pattern forms.",
     "DESIGN.md section 5 C12")
 
+add("C13", "exploration",
+    "runtime monitor across perturbed executions in worker subprocesses: seeded latency at every backend call, seeded sleeps at pipeline yield points (hook H4), rayon pool sizes 1/2/4/16, pack sizes from one blob per pack up; cross-run equality of tree ids and referenced sets, per-run raw storage consistency, /proc+gdb deadlock classifier; thorough tier adds Miri (16 scheduler seeds, data-race/deadlock/UB detection) and ThreadSanitizer on the same pipeline workload",
+    "Held on the executions observed (evidence lists distinct storage event orders and pack partitions seen; a scenario with < 2 distinct orders is inconclusive). Interleavings are sampled, not enumerated; Miri/TSan cover the small sanitizer workload only.",
+    "Hang verdicts use logical evidence (all threads sleeping + zero CPU delta), a watchdog expiry alone is inconclusive. Miri runs with tree borrows, isolation off, leaks ignored; zstd C code is not instrumented by TSan.",
+    "DESIGN.md sections 4 and 5 C13")
+
+add("C20", "exploration",
+    "runtime model-based monitor: random operation programs on LocalBackend, OpenDAL fs and OpenDAL memory checked step by step against a BTreeMap, with planted stray entries; pre-publish hook H5 (visibility and simulated interruption), concurrent reader threads, strace syscall-log checker for the publish protocol",
+    "Held on the generated programs and publish cases. Sampling; durability after power loss and remote services are out of reach.",
+    "Trusts the BTreeMap model, SHA-256 for completeness checks and strace's -y path decoding.",
+    "DESIGN.md section 5 C20")
+
 NOT_YET = "check not built yet (work in progress in this round)"
 
 def main():
